@@ -1004,6 +1004,25 @@ Definition rec_ambig_class (fuel : nat) (d : decls) (rho : list ty) (hs : list h
   | None => false
   end.
 
+(** ** Known class of the SLG solver (DESIGN §5 F7, here within ONE query)
+
+    [WellFormed(T: Tr)] is coinductive; supertrait / parameter-bound cycles make its
+    dependency graph cyclic.  SLG keeps, for a table first created as a non-root member of a
+    coinductive cycle, only an answer with delayed sub-goals; when another consumer outside
+    that cycle needs the table the answer is discarded and a TRUE goal gets "No possible
+    solution".  Witness (found by the C06 generator):
+    [struct S0 {} trait Tr3<P0> where Self: Tr0, P0: Tr2 {} trait Tr1 where Self: Tr3<S0> {}
+     trait Tr2 where Self: Tr1, Self: Tr3<S0> {} trait Tr0 where Self: Tr1 {}],
+    [forall<X> { if (X: Tr2) { WellFormed(X: Tr2) } }]: SLG "No possible solution", oracle: true.
+    Decidable, conservative description on the input: the goal reaches a coinductive predicate
+    that lies on a cycle of the predicate dependency graph. *)
+Definition slg_cocycle_class (d : decls) (g : goal) : bool :=
+  let s := lower d in
+  let cls := rs_R s in
+  let start := syms_of (goal_atoms g) in
+  let R0 := reachS (graph_fuel cls (length start)) cls start [] in
+  existsb (fun x => memN x (rs_co s) && memN x (reaches_from cls x)) R0.
+
 Module EnvExamples.
   (* struct A; struct B; struct S<T> where T: Ord; struct W<T>
      trait Clone; trait Eq where Self: Clone; trait Ord where Self: Eq; trait Hash<K> where K: Eq
@@ -1072,5 +1091,21 @@ Module EnvExamples.
   Proof.
     split; [vm_compute; reflexivity|]. split; [|vm_compute; reflexivity].
     apply (sat_if_exact 50 (lower D2) [T] hs2 _ true); [vm_compute; reflexivity|reflexivity].
+  Qed.
+  (** The SLG class: the witness is in it and the oracle proves the goal; an acyclic
+      hierarchy is outside. *)
+  Definition D3 := mkDecls
+    [mkTrait (tapp 1000 [TVar 0]) [tapp 1001 [TVar 0]];                                   (* Tr0 where Self: Tr1 *)
+     mkTrait (tapp 1001 [TVar 0]) [tapp 1003 [TVar 0; A]];                                (* Tr1 where Self: Tr3<S0> *)
+     mkTrait (tapp 1002 [TVar 0]) [tapp 1001 [TVar 0]; tapp 1003 [TVar 0; A]];            (* Tr2 where Self: Tr1, Self: Tr3<S0> *)
+     mkTrait (tapp 1003 [TVar 0; TVar 1]) [tapp 1000 [TVar 0]; tapp 1002 [TVar 1]]]       (* Tr3<P0> where Self: Tr0, P0: Tr2 *)
+    [mkAdt A [] []] [] [].
+  Example slg_cocycle_witness :
+    slg_cocycle_class D3 (GAtom (wf (tapp 1002 [TVar 0]))) = true /\
+    sat (full_program (lower D3)) [] [T] (GIf [hypo (fe (tapp 1002 [TVar 0]))] (GAtom (wf (tapp 1002 [TVar 0])))) /\
+    slg_cocycle_class D (GAtom (wf (Ord (TVar 0)))) = false.
+  Proof.
+    split; [vm_compute; reflexivity|]. split; [|vm_compute; reflexivity].
+    apply (sat_if_exact 100 (lower D3) [T] _ _ true); [vm_compute; reflexivity|reflexivity].
   Qed.
 End EnvExamples.
